@@ -20,11 +20,11 @@ use crate::{
     parsers::{parse_prometheus, prom_families},
 };
 
-const RULE: &str = "a case = idle timeout T from {none, 1 ns, 1 s, 10 s}, one of the 8 kind masks, and a history of 2-40 steps over 1-3 keys x 3 kinds: update (including updates that restore the same value), advance the mock clock by 0 / 1 ns / T-1 ns / T / T+1 ns / random, observe. Lane A drives Recency + Registry directly (the same key may live under two kinds); lane B drives a Prometheus recorder built with the mock clock and observes by parsing render(). A reference state machine per (kind, key) — generation last seen and the instant it was first seen — predicts keep/drop at every observation. Non-trivial = the history contains a drop and a clock advance of exactly T. Distinct = distinct decoded cases. Exhaustive sub-lane: every history of length <= 6 over {update, +T-1, +T, +T+1, observe} for one key.";
+const RULE: &str = "a case = idle timeout T from {none, 1 ns, 1 s, 10 s, and two 'never' values near u64::MAX ns}, one of the 8 kind masks, and a history of 2-40 steps over 1-3 keys x 3 kinds: update (including updates that restore the same value), advance the mock clock by 0 / 1 ns / T-1 ns / T / T+1 ns / random, observe. Lane A drives Recency + Registry directly (the same key may live under two kinds); lane B drives a Prometheus recorder built with the mock clock and observes by parsing render(). A reference state machine per (kind, key) — generation last seen and the instant it was first seen — predicts keep/drop at every observation. Non-trivial = the history contains a drop and a clock advance of exactly T. Distinct = distinct decoded cases. Exhaustive sub-lane: every history of length <= 6 over {update, +T-1, +T, +T+1, observe} for one key.";
 
 static META: Metadata<'static> = Metadata::new("c12", Level::INFO, None);
 
-const TIMEOUTS: [Option<u64>; 4] = [None, Some(1), Some(1_000_000_000), Some(10_000_000_000)];
+const TIMEOUTS: [Option<u64>; 6] = [None, Some(1), Some(1_000_000_000), Some(10_000_000_000), Some(u64::MAX), Some(u64::MAX - 1_000_000_000)];
 
 #[derive(Debug, Clone, Copy, PartialEq)]
 enum Step {
@@ -42,7 +42,8 @@ struct Case {
 }
 
 fn dec_advance(src: &mut Source, t: Option<u64>) -> u64 {
-    let t = t.unwrap_or(1_000_000_000);
+    // 'never expire' timeouts (584 years): advance the clock as for a one-second timeout
+    let t = t.filter(|t| *t < (1 << 62)).unwrap_or(1_000_000_000);
     match src.below(7) {
         0 => 0,
         1 => 1,
